@@ -21,6 +21,9 @@ Tie:   T — Generated/SyncShape.lean (critical-section structure of every metho
            plain map with lwfr: LoadWithFunc whose callback looks its key up again (callback execution as an observable event).
            … and with loswfr: LoadOrStoreWithFunc whose onLoad callback (under the WRITE lock) compares its argument with the
            element in the map while it runs (overlay-only VerifPeek; Props/C14Current.lean).
+           Validities at the far end of the time axis (beyond 2262-04-11, where int64 Unix nanoseconds end; clock + MaxInt64 ns)
+           are part of the cache programs, the bwrecv programs and the stress rounds: live for Load / LoadOrStore / the sweep
+           (Props/C14Validity.lean).
            A panic of the code under test is the schedule's observation (r<t>:panic:…): reported with program and schedule.
        X (limiter, for C16) — limiter_check: the real parallel-request limiter over the cooperative map (harness/c14/limiter_test.go),
            judged by C16's driver; called from checks/c16.py, violations are reported under C16.
@@ -37,10 +40,22 @@ from concurrent.futures import ThreadPoolExecutor
 
 from . import common
 
-MODULES = ["CoapVerif.Props.C14", "CoapVerif.Props.C14Current"]
+MODULES = ["CoapVerif.Props.C14", "CoapVerif.Props.C14Current", "CoapVerif.Props.C14Validity"]
 CORPUS = os.path.join(common.VERIF, "corpus", "C14")
 WRITES = ("store", "los", "replace", "delete", "lad", "ladall", "swf", "loswf", "loswfn", "rwf", "dwf", "ladwf", "clos", "sweep")
 WHOLE = ("ladall", "copy", "len", "range", "range2", "sweep")
+# Validities at the far end of the time axis (seconds after the harness' clock origin; under testing/synctest that origin is
+# 2000-01-01T00:00:00Z = Unix 946684800).  An element's validity is a time.Time and callers hand over instants that mean
+# "practically never" (time.Now().Add(math.MaxInt64), a context deadline centuries ahead): BlockWise.Do / handleSendingMessage /
+# getValidUntil pass them straight to NewElement.  Such an element has not expired - for Load, LoadOrStore and the sweep alike.
+#   VU_I64_LAST / VU_I64_FIRST_PAST = the last whole second inside / the first one beyond the range of int64 Unix nanoseconds
+#   (2262-04-11T23:47:16Z / :17Z); VU_2263 = a date in 2263; VU_MAX = clock + math.MaxInt64 ns (the longest time.Duration);
+#   SWEEP_FAR = a `now` for CheckExpirations between VU_2263 and VU_MAX
+VU_I64_LAST = (2 ** 63 - 1) // 10 ** 9 - 946684800        # 8276687236
+VU_I64_FIRST_PAST = VU_I64_LAST + 1
+VU_2263 = 8300000000
+VU_MAX = (2 ** 63 - 1) // 10 ** 9                          # 9223372036
+SWEEP_FAR = 9000000000
 
 
 # ---------------------------------------------------------------- build (overlay)
@@ -158,7 +173,9 @@ def cache_templates(k, fresh):
             lambda: "clos:%d:%d@10" % (k, v()), lambda: "store:%d:%d@10" % (k, v()),   # expiry boundary: tick:10 makes now == vu
             # CheckExpirations(now) with a caller-chosen now: behind the clock (2, 5 after tick:10), ahead of it (50, 200),
             # at the boundary of an entry (10)
-            lambda: "sweep:2", lambda: "sweep:5", lambda: "sweep:10", lambda: "sweep:50", lambda: "sweep:200"]
+            lambda: "sweep:2", lambda: "sweep:5", lambda: "sweep:10", lambda: "sweep:50", lambda: "sweep:200",
+            # validities "practically never" / just beyond what int64 Unix nanoseconds can express (seeded C14-V)
+            lambda: "clos:%d:%d@%d" % (k, v(), VU_MAX), lambda: "store:%d:%d@%d" % (k, v(), VU_I64_FIRST_PAST)]
 
 
 def gen_programs(ctx):
@@ -185,6 +202,21 @@ def gen_programs(ctx):
         T = cache_templates(1, fr)
         for a, b in itertools.combinations_with_replacement(range(len(T)), 2):
             P.append(fmt_prog("cache", pre, [[T[a]()], [T[b]()]], ["cload:1", "load:1", "len"]))
+    # 3b. entries whose validity lies at the far end of the time axis: live for Load / LoadOrStore / the sweep (by the clock and
+    #     by a caller-chosen `now` short of the validity), removed only by a sweep whose `now` is later still
+    fr = Fresh()
+    v = fr
+    far = [lambda: "clos:1:%d@%d" % (v(), VU_MAX), lambda: "clos:1:%d@100" % v(), lambda: "cload:1", lambda: "sweep", lambda: "sweep:200",
+           lambda: "sweep:%d" % SWEEP_FAR, lambda: "store:1:%d@%d" % (v(), VU_2263), lambda: "delete:1",
+           lambda: "clos:1:%d@%d" % (v(), VU_I64_LAST), lambda: "clos:1:%d@%d" % (v(), VU_I64_FIRST_PAST), lambda: "tick:10"]
+    for pre in ([], ["store:1:5@%d" % VU_MAX], ["store:1:5@%d" % VU_I64_FIRST_PAST, "tick:10"],
+                ["store:1:5@%d" % VU_I64_LAST, "store:2:6@%d" % VU_2263], ["clos:1:5@%d" % VU_2263, "tick:300"]):
+        for a, b in itertools.combinations_with_replacement(range(len(far)), 2):
+            P.append(fmt_prog("cache", pre, [[far[a]()], [far[b]()]], ["cload:1", "load:1", "len"]))
+    for pre in (["store:1:5@%d" % VU_MAX, "tick:10"], ["store:1:5@%d" % VU_I64_FIRST_PAST, "store:2:6@3", "tick:10"]):
+        for a, b in itertools.combinations_with_replacement([0, 1, 2, 7], 2):
+            for sw in ("sweep", "sweep:200", "sweep:%d" % SWEEP_FAR):
+                P.append(fmt_prog("cache", pre, [[sw], [far[a]()], [far[b]()]], ["cload:1", "load:1", "load:2", "len"]))
     # 4. sweep against two other threads
     fr = Fresh()
     T = cache_templates(1, fr)
@@ -261,6 +293,9 @@ def gen_programs(ctx):
             (["clos:1:5@3", "tick:3"], [["clos:1:6@110"], ["cload:1"]], ["cload:1"]),
             (["clos:1:5@300", "tick:10"], [["clos:1:6@310"], ["cload:1"]], ["sweep", "cload:1"]),
             ([], [["clos:1:6@110"], ["clos:1:7@110"]], ["cload:1"]),
+            # a reassembly entry that is valid "practically for ever" is found, kept by the sweep, and is the one entry (C14-V)
+            (["clos:1:5@%d" % VU_MAX, "tick:10"], [["clos:1:6@110"], ["cload:1"]], ["sweep", "cload:1"]),
+            ([], [["clos:1:6@%d" % VU_I64_FIRST_PAST], ["clos:1:7@%d" % VU_MAX]], ["cload:1", "sweep", "cload:1"]),
             ([], [["clos:1:6@110", "cload:2"], ["clos:2:7@110", "cload:1"]], ["tick:200", "cload:1", "sweep", "cload:2"])):
         P.append(fmt_prog("bwrecv", pre, ths, post))
     # 5. random programs: 2-3 threads x 1-3 operations on 1-2 keys
@@ -277,7 +312,7 @@ def gen_programs(ctx):
             pre = ["store:%d:%d" % (k, 4 + k) for k in range(1, nk + 1) if rng.random() < 0.6]
             post = ["load:%d" % k for k in range(1, nk + 1)] + ["len"]
         else:
-            pre = ["store:%d:%d@%d" % (k, 4 + k, rng.choice([0, 3, 100])) for k in range(1, nk + 1) if rng.random() < 0.7]
+            pre = ["store:%d:%d@%d" % (k, 4 + k, rng.choice([0, 3, 100, VU_MAX, VU_I64_FIRST_PAST])) for k in range(1, nk + 1) if rng.random() < 0.7]
             if rng.random() < 0.6:
                 pre.append("tick:10")
             post = ["cload:%d" % k for k in range(1, nk + 1)] + ["load:%d" % k for k in range(1, nk + 1)] + ["len"]
@@ -657,7 +692,7 @@ def run(ctx):
     ctx.cov["exhaustive"] = True
     ctx.cov["rule"] = ("programs: every pair of operations of the full Map API on one key (3 initial maps), triples of the "
                        "store-if-absent / read-modify-write family, every pair of Cache operations (5 initial states incl. expired "
-                       "entries; incl. CheckExpirations(now) with now behind / at / ahead of the clock), sweep against two threads, plus seeded random programs (2-3 threads x 1-3 operations, 1-2 keys). "
+                       "entries; incl. CheckExpirations(now) with now behind / at / ahead of the clock; incl. validities beyond the year 2262 - the int64-nanosecond boundary, clock + MaxInt64 ns), sweep against two threads, plus seeded random programs (2-3 threads x 1-3 operations, 1-2 keys). "
                        "For EVERY program ALL interleavings at critical-section granularity are executed on the real code "
                        "(cooperative scheduler through a build overlay of the mutex; capped per random program, truncations "
                        "counted in the histogram). evaluations = schedules executed + stress rounds. A history is non-trivial when "
